@@ -13,15 +13,29 @@ let revoked_s = "REVOKEDTOKEN00000000000000000000"
 let unknown_s = "UNKNOWNTOKEN00000000000000000000"
 let table = [coq_of_string user_s]
 
+let pct_decode (s : string) : string =
+  let b = Buffer.create (Stdlib.String.length s) in
+  let n = Stdlib.String.length s in
+  let i = ref 0 in
+  while !i < n do
+    if s.[!i] = '%' && !i + 2 < n + 0 && !i + 2 <= n - 1 then begin
+      (match int_of_string_opt ("0x" ^ Stdlib.String.sub s (!i + 1) 2) with
+       | Some v -> Buffer.add_char b (Char.chr v); i := !i + 3
+       | None -> Buffer.add_char b s.[!i]; incr i)
+    end else begin Buffer.add_char b s.[!i]; incr i end
+  done;
+  Buffer.contents b
+
 (* adm: the admin token of the case - the configured value when the case names one ("@<value>"), else symbolic *)
 let subst adm t =
   (* ${fn:T}: a value derived from the credential T - symbolic: a distinct value without spaces that is neither the
      admin token nor in the table (the harness skips derivations that reproduce the credential itself) *)
   let t = Str.global_substitute (Str.regexp "\\${\\([a-z0-9]+\\):\\([AU]\\)}")
       (fun s -> "DERIVED-" ^ Str.matched_group 1 s ^ "-OF-" ^ Str.matched_group 2 s) t in
-  Stdlib.List.fold_left (fun acc (p, v) ->
-      Str.global_substitute (Str.regexp_string p) (fun _ -> v) acc)
-    t ["$A", adm; "$U", user_s; "$R", revoked_s; "$X", unknown_s]
+  (* one pass: the admin literal may itself contain '$' *)
+  Str.global_substitute (Str.regexp "\\$[AURX]")
+    (fun s -> match Str.matched_string s with
+       | "$A" -> adm | "$U" -> user_s | "$R" -> revoked_s | _ -> unknown_s) t
 
 type case = { auth : bool; prof : bool; met : bool; fail : bool; over : string; admin : String0.string;
               meth : string; path : string; hdr : string }
@@ -30,8 +44,10 @@ type case = { auth : bool; prof : bool; met : bool; fail : bool; over : string; 
 let parse_cfg (cf : string) =
   let n = Stdlib.String.length cf in
   if n < 3 then None else
+    (* "@<src>=<percent-encoded configured literal>": the model keeps the configured literal whatever the source *)
     let cf, adm = match Stdlib.String.index_opt cf '@' with
-      | Some i -> Stdlib.String.sub cf 0 i, Stdlib.String.sub cf (i + 1) (n - i - 1)
+      | Some i when n - i - 1 >= 3 -> Stdlib.String.sub cf 0 i, pct_decode (Stdlib.String.sub cf (i + 3) (n - i - 3))
+      | Some i -> Stdlib.String.sub cf 0 i, admin_s
       | None -> cf, admin_s in
     let flags = Stdlib.String.sub cf 0 3 and rest = Stdlib.String.sub cf 3 (Stdlib.String.length cf - 3) in
     let fail, rest = if rest <> "" && rest.[0] = 'f' then true, Stdlib.String.sub rest 1 (Stdlib.String.length rest - 1) else false, rest in
